@@ -92,6 +92,13 @@ pub enum CStep {
         s: u8,
         ok: bool,
     },
+    /// node x is asked to start syncing a document its store does not hold (the request fails;
+    /// the document must not count as synced afterwards)
+    StartSyncUnknown {
+        #[serde(default)]
+        l: u8,
+        x: u8,
+    },
     /// the gossip layer reports the other node of the lane as gone (must not touch the slot)
     NeighborDown {
         #[serde(default)]
@@ -282,6 +289,7 @@ impl Scenario for Coord {
                 21 => CStep::LoseAbort { l, d: rng.below(4) as u8 },
                 22..=24 => CStep::FinishDialSide { l, s: rng.below(4) as u8, ok: rng.chance(2, 3) },
                 25..=27 => CStep::FinishAcceptSide { l, s: rng.below(4) as u8, ok: rng.chance(2, 3) },
+                28 => CStep::StartSyncUnknown { l, x },
                 _ => CStep::UnknownDocRequest { l, x, held: rng.chance(1, 2) },
             };
             steps.push(s);
@@ -540,6 +548,14 @@ async fn run(plan: &CoordPlan, cx: &mut Cx) -> Res {
             CStep::NeighborUp { l, x } => {
                 let (l, x) = (*l as usize % nl, *x as usize % 2);
                 send!(lanes[l].n[x], ToLiveActor::NeighborUp { namespace: lanes[l].ns, peer: nodes[lanes[l].n[1 - x]].id });
+            }
+            CStep::StartSyncUnknown { l, x } => {
+                let (l, x) = (*l as usize % nl, *x as usize % 2);
+                let (reply, rx) = oneshot::channel();
+                send!(lanes[l].n[x], ToLiveActor::StartSync { namespace: unknown_ns, peers: vec![], reply });
+                let r = rx.await.map_err(|_| Violation::new("actor-stopped/live", "no answer to a start-sync request".to_string()))?;
+                cx.ev("start-sync-unknown", format!("n{} ok={}", lanes[l].n[x], r.is_ok()));
+                cx.probe("start_sync_for_a_document_the_store_does_not_hold");
             }
             CStep::NeighborDown { l, x } => {
                 let (l, x) = (*l as usize % nl, *x as usize % 2);
